@@ -14,9 +14,10 @@ Local Open Scope Z_scope.
     [Model.Ops.run] from the store of a new account [init5 t1..t5] (the five
     default mailboxes, each with its own clock reading).
     [clean s h = true]: every step of [h] is in the hierarchy-free scope
-    ([flat_step]) and outside the five finding classes ([step_class]) — i.e. no
-    COPY/UID COPY/Junk move actually inserted a message, INBOX was not renamed
-    while holding messages, and no (name, UIDVALIDITY) pair was handed out twice. *)
+    ([flat_step]) and outside the one remaining finding class ([step_class]):
+    no (name, UIDVALIDITY) pair was handed out twice (UIDVALIDITY is the wall
+    clock second).  COPY, UID COPY, the Junk/NonJunk move and RENAME INBOX with
+    messages are INSIDE the theorems since the fix wave. *)
 
 (** After every clean history: (name, UIDVALIDITY, UID) determines the message
     instance in the log of everything that was ever visible; every mailbox's
@@ -106,44 +107,30 @@ Theorem c03_inv_reachable : forall t1 t2 t3 t4 t5 h,
 Proof. exact inv_reachable_l. Qed.
 Print Assumptions c03_inv_reachable.
 
-(** non-vacuity: a clean history that uses every kind of operation (a UID COPY
-    that finds nothing to copy, a RENAME of the empty INBOX, DELETE + CREATE of
-    the same name in different seconds), and the invariants evaluated on it *)
+(** non-vacuity: a clean history that uses every kind of operation (UID COPY,
+    COPY, a Junk move, RENAME INBOX with a message in it, DELETE + CREATE of the
+    same name in different seconds), and the spec evaluated on it *)
 Example c03_clean_example :
-  let h := [OCreate A 101; OAppend A []; ORename INBOX (S_ "I2") 100; ODeliver INBOX 0;
-            ORename A (S_ "B") 0; OAppend (S_ "B") [S_ "\Seen"]; OUidCopy 6 [UOne 9] TRASH;
+  let h := [OCreate A 101; OAppend A []; ODeliver INBOX 0; ORename INBOX (S_ "I2") 100;
+            ORename A (S_ "B") 0; OAppend (S_ "B") [S_ "\Seen"]; OUidCopy 6 [UOne 1] TRASH;
+            OUidCopy 6 [URange 1 2] TRASH; OCopy 6 [UOne 1] (S_ "B"); OUidStore 6 [UOne 2] SAdd [JUNK];
             OUidStore 6 [URange 1 5] SAdd [DELETED]; OExpunge 6; ODelete (S_ "B"); OCreate A 102;
-            OAppend A []; ODeliver (S_ "D") 103; OClose 1; OCopy 1 [UOne 7] TRASH] in
+            OAppend A []; ODeliver (S_ "D") 103; OClose 1; OAppend TRASH []; ODeliver SPAM 0] in
   clean (init 100) h = true /\ spec_b (run h (init 100)) = true /\
-  length (glog (run h (init 100))) = 6%nat.
+  length (glog (run h (init 100))) = 14%nat.
 Proof. vm_compute. repeat split. Qed.
 
 (** ---- refuted parts: raven's current code violates the statement ---------- *)
 
-(** UID COPY allocates MAX(uid)+1 and never advances uid_next: afterwards the
-    advertised UIDNEXT is not above an existing UID. *)
-Theorem c03_refuted_copy_then_append :
-  exists h, classify (init 100) h = Some CCopyStale /\ ~ uidnext_truthful (run h (init 100)).
-Proof. exact refuted_copy_stale. Qed.
-Print Assumptions c03_refuted_copy_then_append.
-
-(** after the top UID was expunged, MAX(uid)+1 hands a used UID to another message *)
-Theorem c03_refuted_expunge_top_then_copy :
-  exists h, classify (init 100) h = Some CCopyReuse /\ ~ uid_functional (run h (init 100)).
-Proof. exact refuted_copy_reuse. Qed.
-Print Assumptions c03_refuted_expunge_top_then_copy.
-
-(** the Junk/NonJunk move allocates the same way *)
-Theorem c03_refuted_junk_move :
-  exists h, classify (init 100) h = Some CMoveMaxUid /\ ~ uidnext_truthful (run h (init 100)).
-Proof. exact refuted_move. Qed.
-Print Assumptions c03_refuted_junk_move.
-
-(** RENAME INBOX x: x advertises UIDNEXT 1 while holding INBOX's messages *)
-Theorem c03_refuted_rename_inbox :
-  exists h, classify (init 100) h = Some CRenameInbox /\ ~ uidnext_truthful (run h (init 100)).
-Proof. exact refuted_rename_inbox. Qed.
-Print Assumptions c03_refuted_rename_inbox.
+(** (The refutations of the first round — COPY/UID COPY/Junk move allocating
+    MAX(uid)+1 without advancing uid_next, RENAME INBOX resetting uid_next — are
+    gone: the defects are repaired (fixes/c03-*.patch), the model follows the
+    repaired code, and those operations are covered by the theorems above.  Their
+    witnesses are kept as a regression example.) *)
+Example c03_repaired_witnesses_fine :
+  forallb (fun h => clean (init 100) h && spec_b (run h (init 100)))
+          [w_copy_stale; w_copy_reuse; w_move; w_rename_inbox] = true.
+Proof. exact repaired_witnesses_fine. Qed.
 
 (** DELETE + CREATE within one clock second: same name, same UIDVALIDITY,
     UID 1 denotes a second message *)
